@@ -64,9 +64,13 @@ def accumulators(f: Func, lp: ast.For) -> List[ast.AST]:
                     base = base.value
                 if isinstance(base, ast.Name) and base.id in outer:
                     out.append(n)
-        elif isinstance(n, ast.Call) and isinstance(n.func, ast.Attribute) and isinstance(n.func.value, ast.Name) \
-                and n.func.value.id in outer and n.func.attr in ("append", "add", "extend", "update", "insert"):
-            out.append(n)
+        elif isinstance(n, ast.Call) and isinstance(n.func, ast.Attribute) \
+                and n.func.attr in ("append", "add", "extend", "update", "insert"):
+            base = n.func.value
+            while isinstance(base, (ast.Call, ast.Attribute, ast.Subscript)):
+                base = base.func if isinstance(base, ast.Call) else base.value
+            if isinstance(base, ast.Name) and base.id in outer:
+                out.append(n)
         elif isinstance(n, (ast.Yield, ast.Return)) and n.value is not None:
             out.append(n)
     return out
